@@ -80,10 +80,22 @@ def run(ctx):
     r = ctx.tlc("MC_WfCC", cfg="MC_WfCC_lazybranch.cfg", workers=2, must_pass=False)
     if "Transparent" not in r.invariant_violated:
         raise core.MachineryError("model insensitive: lazy branch inputs do not violate Transparent")
+    # file-valued inputs: the memo must tell the same file at two paths apart (as first built it did not)
+    ctx.tlc("MC_WfCC", cfg="MC_WfCC_file_m1.cfg", workers=4, timeout=1500)
+    r = ctx.tlc("MC_WfCC", cfg="MC_WfCC_file_asbuilt.cfg", workers=2, must_pass=False)
+    if not ({"Transparent", "NoLeak"} & set(r.invariant_violated)):
+        raise core.MachineryError("model insensitive: a memo keyed by content hashes does not violate Transparent / NoLeak")
     g = ctx.tlc("MC_WfCC", cfg="MC_WfCC_gen4.cfg" if ctx.thorough else "MC_WfCC_gen.cfg", workers=1, timeout=3000)
     hists = g.printed()
-    total = len(hists)
-    hists = ctx.rng.sample(hists, min(total, 1500 if ctx.thorough else 120))
+    gf = ctx.tlc("MC_WfCC", cfg="MC_WfCC_file_gen.cfg", workers=1, timeout=3000)
+    fh = gf.printed()
+    total = len(hists) + len(fh)
+    hists = ctx.rng.sample(hists, min(len(hists), 1500 if ctx.thorough else 120))
+    # file histories: those that construct the same file at two paths first
+    twin = [h for h in fh if len({s["v"]["x"] % 10 for s in h}) < len({s["v"]["x"] for s in h})]
+    rest = [h for h in fh if h not in twin]
+    hists += ctx.rng.sample(twin, min(len(twin), 600 if ctx.thorough else 60)) + ctx.rng.sample(rest, min(len(rest), 200 if ctx.thorough else 20))
+    ctx.extra["file_histories"] = {"total": len(fh), "same_file_two_paths": len(twin)}
     # fresh references: every distinct request constructed / run alone in a clean interpreter
     reqs = {}
     for h in hists:
@@ -107,5 +119,8 @@ def run(ctx):
 
 def replay(ctx, rec):
     h = rec["case"]["history"]
-    print(child(h))
+    obs = child(h)
+    fresh = {json.dumps(norm_op(s), sort_keys=True): child([norm_op(s)])[0] for s in h}
+    print(obs)
     ctx.ran()
+    judge(ctx, [dict(s, how=s.get("how", "?"), obj=s.get("obj", i)) for i, s in enumerate(h)], obs, fresh)
